@@ -26,7 +26,8 @@ def manifest(root):
                     digest = h.hexdigest()
                 except OSError:
                     digest = "unreadable"
-                out[rel] = ("file", st.st_size, digest, None, st.st_mode, st.st_mtime_ns, st.st_ino)
+                # ctime: the inode was written (chmod, utime / futimens with the old values, link count) even when nothing else shows
+                out[rel] = ("file", st.st_size, digest, None, st.st_mode, st.st_mtime_ns, st.st_ino, st.st_ctime_ns)
     return out
 
 
@@ -46,6 +47,8 @@ def diff(a, b):
                 what = "mtime-changed"
             elif a[p][6] != b[p][6] and a[p][:4] == b[p][:4]:
                 what = "replaced (new inode)"
+            elif a[p][:7] == b[p][:7]:
+                what = "inode-metadata-written (ctime)"
             out.append((what, p, a[p], b[p]))
     return out
 
